@@ -56,6 +56,10 @@ pub struct Case {
     /// written, until the peer's immediate reply has been written, acknowledged and the receiver task has had its turn
     #[serde(default)]
     pub reply_overtakes: bool,
+    /// 0: off; otherwise the calls of a wave get process numbers exactly 2^(13 + (k-1) % 7) apart (the allocator is moved
+    /// forward between two calls), so that their identifiers agree in their low bits
+    #[serde(default)]
+    pub id_stride: u8,
 }
 
 #[derive(Debug)]
@@ -152,6 +156,7 @@ fn run_net(c: &Case) -> Result<Result<NetOut, String>, BedErr> {
                     hold.set(c.reply_overtakes && p.is_some() && wave.iter().filter(|c| !c.unknown_node).count() == 1);
                     let mut handles = vec![];
                     for (i, call) in wave.iter().enumerate() {
+                        let outer_node = node.clone();
                         let node = node.clone();
                         let outcomes = outcomes.clone();
                         let call = call.clone();
@@ -167,6 +172,13 @@ fn run_net(c: &Case) -> Result<Result<NetOut, String>, BedErr> {
                                 expect_reply_in_time: in_time && !call.unknown_node,
                             });
                         }));
+                        if c.id_stride > 0 {
+                            // the call takes its identifier the first time it runs; then the allocator jumps ahead
+                            tokio::task::yield_now().await;
+                            tokio::task::yield_now().await;
+                            let stride = 1u32 << (13 + (c.id_stride - 1) % 7);
+                            outer_node.verif_pid_allocator().next_id_test_only().fetch_add(stride - 1, std::sync::atomic::Ordering::SeqCst);
+                        }
                     }
                     // late replies of earlier waves arrive now, while this wave is outstanding
                     let expected_requests = if p.is_some() { wave.iter().filter(|c| !c.unknown_node).count() } else { 0 };
@@ -196,7 +208,11 @@ fn run_net(c: &Case) -> Result<Result<NetOut, String>, BedErr> {
                             let _ = pc.write(&send_frame(&pid, &echo(lw, li))).await;
                         }
                         for k in 0..c.stray {
-                            let bogus = Value::Pid { node: "rust@127.0.0.1".into(), id: 777_000 + k as u32, serial: 0, creation: 0x0102_0304 };
+                            // every other stray carries the process number and serial of an outstanding call under another creation
+                            let bogus = match reqs.get(k as usize % reqs.len().max(1)) {
+                                Some((Value::Pid { node, id, serial, creation }, _, _)) if k % 2 == 1 => Value::Pid { node: node.clone(), id: *id, serial: *serial, creation: creation.wrapping_add(1) },
+                                _ => Value::Pid { node: "rust@127.0.0.1".into(), id: 777_000 + k as u32, serial: 0, creation: 0x0102_0304 },
+                            };
                             let _ = pc.write(&send_frame(&bogus, &Value::atom("stray"))).await;
                         }
                         pc.settle().await;
@@ -366,6 +382,7 @@ pub fn oracle(c: &Case) -> Verdict {
             .class_if(c.fault != 0, "peer-closes")
             .class_if(c.second_peer_closes, "another-peer-closes-meanwhile")
             .class_if(c.reply_overtakes && c.waves.iter().any(|w| w.iter().filter(|c| !c.unknown_node).count() == 1), "caller-held-until-the-reply-is-routed")
+            .class_if(c.id_stride > 0, "identifiers-2^k-apart")
             .class_if(out.switched > 0, "schedule-yields"),
     )
 }
@@ -374,8 +391,8 @@ fn strategy() -> impl Strategy<Value = Case> {
     let reply = prop_oneof![4 => Just(Reply::Now), 3 => (0u8..8).prop_map(Reply::After), 2 => Just(Reply::Never), 1 => Just(Reply::Twice), 2 => Just(Reply::NowAndLate)];
     let call = (any::<u8>(), reply, prop::bool::weighted(0.08)).prop_map(|(timeout_s, reply, unknown_node)| Call { timeout_s, reply, unknown_node });
     let wave = prop_oneof![1 => prop::collection::vec(call.clone(), 1..2), 3 => prop::collection::vec(call, 1..7)];
-    (prop::collection::vec(wave, 1..4), prop::collection::vec(any::<u8>(), 0..6), prop::collection::vec(any::<u8>(), 0..30), 0u8..3, prop_oneof![6 => Just(0u8), 1 => Just(1u8), 1 => Just(2u8), 2 => Just(3u8)], prop::bool::weighted(0.35), prop::bool::weighted(0.25), prop::bool::weighted(0.4))
-        .prop_map(|(waves, perm, schedule, stray, fault, reuse_ids, second_peer_closes, reply_overtakes)| Case { waves, perm, schedule, stray, fault, reuse_ids, second_peer_closes, reply_overtakes })
+    (prop::collection::vec(wave, 1..4), prop::collection::vec(any::<u8>(), 0..6), prop::collection::vec(any::<u8>(), 0..30), 0u8..3, prop_oneof![6 => Just(0u8), 1 => Just(1u8), 1 => Just(2u8), 2 => Just(3u8)], prop::bool::weighted(0.35), prop::bool::weighted(0.25), prop::bool::weighted(0.4), prop_oneof![3 => Just(0u8), 1 => 1u8..8])
+        .prop_map(|(waves, perm, schedule, stray, fault, reuse_ids, second_peer_closes, reply_overtakes, id_stride)| Case { waves, perm, schedule, stray, fault, reuse_ids, second_peer_closes, reply_overtakes, id_stride })
 }
 
 // ---- a large request to a peer that is not reading: the call's own timeout must not tear the frame -----------------------
